@@ -117,17 +117,22 @@ package selector
 //@   ensures[C07] dyntype(nextSelector, "ExploreRecursiveEdge") ==> r
 //@   ensures[C07] !dyntype(nextSelector, "ExploreRecursiveEdge") && !dyntype(nextSelector, "ExploreUnion") ==> !r
 //@   loop 0 invariant 0 - 1 <= rangeindex && rangeindex < len(exploreUnion.Members)
+//@ pure func plainclause(sel Selector) bool = !dyntype(sel, "ExploreRecursiveEdge") && !dyntype(sel, "ExploreUnion")
 //@ func (ExploreRecursive).replaceRecursiveEdge(nextSelector, replacement) (r)
 //@   assigns nothing
 //@   ensures[C07] dyntype(nextSelector, "ExploreRecursiveEdge") ==> r == replacement
-//@   ensures[C07] !dyntype(nextSelector, "ExploreRecursiveEdge") && !dyntype(nextSelector, "ExploreUnion") ==> r == nextSelector
+//@   ensures[C07] plainclause(nextSelector) ==> r == nextSelector
+//@   ensures[C07] dyntype(nextSelector, "ExploreUnion") && (exists i mathint :: 0 <= i && i < len(unbox(nextSelector, "ExploreUnion").Members) && plainclause(unbox(nextSelector, "ExploreUnion").Members[i]) && unbox(nextSelector, "ExploreUnion").Members[i] != nil) ==> r != nil
 //@   loop 0 invariant 0 - 1 <= rangeindex && rangeindex < len(exploreUnion.Members) && fresh(replacementMembers)
+//@   loop 0 invariant (exists i mathint :: 0 <= i && i <= rangeindex && plainclause(exploreUnion.Members[i]) && exploreUnion.Members[i] != nil) ==> len(replacementMembers) >= 1
+//@   loop 0 invariant forall k mathint :: 0 <= k && k < len(replacementMembers) ==> replacementMembers[k] != nil
 //@ func (*Condition).Match(n) (r)
 //@   assigns nothing
 
 //@ func (ExploreRecursive).Explore(n, p) (r, err)
 //@   requires n != nil && s.current != nil && (s.limit.mode == RecursionLimit_None || s.limit.mode == RecursionLimit_Depth)
-//@   ensures[C07] dyntype(s.current, "ExploreRecursiveEdge") && s.stopAt == nil ==> r == nil && err == nil
+//@   ensures[C07,C10] dyntype(s.current, "ExploreRecursiveEdge") && s.stopAt == nil ==> r == nil && err == nil
+//@   before Explore assert[C07,C10] !dyntype(carg0, "ExploreRecursiveEdge")
 //@   ensures[C07] r != nil && (s.limit.mode == RecursionLimit_None || s.limit.depth >= 2) ==> dyntype(r, "ExploreRecursive") && unbox(r, "ExploreRecursive").sequence == s.sequence && unbox(r, "ExploreRecursive").stopAt == s.stopAt
 //@   ensures[C07] r != nil && (s.limit.mode == RecursionLimit_None || s.limit.depth >= 2) ==> unbox(r, "ExploreRecursive").limit.mode == s.limit.mode && (unbox(r, "ExploreRecursive").limit.depth == s.limit.depth || (s.limit.mode == RecursionLimit_Depth && unbox(r, "ExploreRecursive").limit.depth == s.limit.depth - 1))
 //@   ensures[C07] r != nil && s.limit.mode == RecursionLimit_None ==> unbox(r, "ExploreRecursive").limit.depth == s.limit.depth
